@@ -499,7 +499,7 @@ def parts(tier):
             name="maps",
             evaluate=evaluate_maps,
             strategy=strategy_maps,
-            budget={"quick": 1200, "thorough": 30000},
+            budget={"quick": 1200, "thorough": 180000},
             shards={"quick": 1, "thorough": 16},
             min_nontrivial={"quick": 260, "thorough": 6000},
         ),
@@ -507,7 +507,7 @@ def parts(tier):
             name="bumps",
             evaluate=evaluate_bumps,
             strategy=strategy_bumps,
-            budget={"quick": 500, "thorough": 10000},
+            budget={"quick": 500, "thorough": 60000},
             shards={"quick": 1, "thorough": 16},
             min_nontrivial={"quick": 95, "thorough": 1800},
         ),
